@@ -31,6 +31,10 @@ func (c *Ctx) goDiff(cut string, progs []GoProg, feats []map[string]bool) error 
 			if res[i].Status == "compile-error" && len(c.Rep.Notes) < 5 {
 				c.Rep.Notes = append(c.Rep.Notes, "generator produced invalid Go: "+res[i].Out)
 			}
+			if res[i].Status == "compile-error" && strings.Contains(cut, "corpus") {
+				// a handwritten program must be valid Go: this is a mistake in the check's own corpus, not a verdict
+				return fmt.Errorf("corpus program is not valid Go (%s): %s", cut, res[i].Out)
+			}
 			continue
 		}
 		st, out := RunGoat(p)
